@@ -128,7 +128,7 @@ def _work(args):
     for k in (addkeys if (len(addkeys) == 1 and len(objs) == 1) else []):
         a = Aut(auts[k])
         for key in sorted(objs[0]):
-            lit = json.dumps(key).encode()
+            lit = jsgen.ser(key).encode("utf-8")   # the canonical spelling (serde_json / json.dumps without ASCII escaping)
             q = a.run(lit)
             out["queries"] += 1
             if q != 0 and k in a.acc[q]:
